@@ -440,18 +440,19 @@ func (u *Unit) notPrivate(addr Term) Term {
 		return True
 	}
 	// opaque root: it may itself be (inside) a private field
-	var kinds []int
-	for _, k := range priv {
-		kinds = append(kinds, k)
-	}
-	sort.Ints(kinds)
-	var alts []Term
-	for _, k := range kinds {
-		alts = append(alts, Eq(App("akind", SInt, cur), IntLit(int64(k))))
-		alts = append(alts, Eq(App("akind", SInt, App("abase", SV, cur)), IntLit(int64(k))))
-	}
-	return Not(Or(alts...))
+	// the kind numbers of private fields start at kindPrivate (fieldKind), so the
+	// membership test is one comparison instead of a disjunction over every
+	// private field of the module
+	return Not(Or(Ge(App("akind", SInt, cur), IntLit(kindPrivate)), Ge(App("akind", SInt, App("abase", SV, cur)), IntLit(kindPrivate))))
 }
+
+// Field kinds are numbered by class: [1, kindPrivate) ordinary fields,
+// [kindPrivate, kindStable) module-private fields, [kindStable, ...) fields
+// that are stable (assume_stable types, final fields; these are private too).
+const (
+	kindPrivate = 1000000
+	kindStable  = 2000000
+)
 
 // fromInitialMemory: v is (a projection of) a select whose array is an
 // initial-memory constant M0_*.
@@ -500,16 +501,7 @@ func (u *Unit) notStable(addr Term) Term {
 	if u.isAllocAtom(cur) {
 		return True
 	}
-	var kinds []int
-	for _, k := range st {
-		kinds = append(kinds, k)
-	}
-	sort.Ints(kinds)
-	var alts []Term
-	for _, k := range kinds {
-		alts = append(alts, Eq(App("akind", SInt, cur), IntLit(int64(k))))
-	}
-	return Not(Or(alts...))
+	return Not(Ge(App("akind", SInt, cur), IntLit(kindStable)))
 }
 
 // fieldKind returns the stable small integer of a field-address function and, on
@@ -525,9 +517,9 @@ func (p *Prog) fieldKind(fn string, structT types.Type, idx int) int {
 		return kid
 	}
 	kid = len(p.fieldKinds) + 1
-	p.fieldKinds[fn] = kid
 	st, isSt := structT.Underlying().(*types.Struct)
 	if !isSt {
+		p.fieldKinds[fn] = kid
 		return kid
 	}
 	f := st.Field(idx)
@@ -543,7 +535,15 @@ func (p *Prog) fieldKind(fn string, structT types.Type, idx int) int {
 	if p.finalFa[fn] {
 		stable = true // proved module-wide (FinalCheck): nobody but the constructor writes it
 	}
-	if stable || (!f.Exported() && f.Pkg() != nil && strings.HasPrefix(f.Pkg().Path(), modulePath)) {
+	private := stable || (!f.Exported() && f.Pkg() != nil && strings.HasPrefix(f.Pkg().Path(), modulePath))
+	switch {
+	case stable:
+		kid += kindStable
+	case private:
+		kid += kindPrivate
+	}
+	p.fieldKinds[fn] = kid
+	if private {
 		if p.privFa == nil {
 			p.privFa = map[string]int{}
 		}
